@@ -72,6 +72,9 @@ impl PropImpl for C09 {
          weighted 32-symbol alphabet incl. tab, CR and multi-byte characters, (M) rendered well-formed fields (all layouts, newlines anywhere), every kind of prefix of them and 1-6 \
          character edits. Non-trivial: >= 3 characters and (the tolerant reader reports an error or a bracket/angle/substvar character occurs); distinct by text hash.".into()
     }
+    fn expected_labels(&self) -> Vec<&'static str> {
+        vec!["has:${", "has:unterminated-[", "has:unterminated-<", "has:unterminated-(", "has:unterminated-{", "has:newline", "has:non-ascii", "origin:prefix-of-field", "origin:mutated-field", "entry-reader-accepts", "relation-reader-accepts"]
+    }
     fn budget(&self, tier: Tier) -> Budget {
         Budget { cases_per_lane: if tier == Tier::Quick { 20000 } else { 100_000 }, tape_max: 500, cpu_s: 10 }
     }
